@@ -17,12 +17,24 @@ func TestCheck(t *testing.T) {
 		return
 	}
 	r := runner.Start("C18", "model_checking")
+	if only := os.Getenv("VERIF_C18_ONLY"); only != "" { // development aid: one part alone
+		switch only {
+		case "dispatch":
+			dispatchDiffPart(r, t)
+		case "crash":
+			crashPart(r)
+		}
+		r.Finish()
+	}
 	schedPart(r, t)
 	mgmtSchedPart(r, t)
 	if _, child := runner.IsShard(); !child && runner.ReplayPath() == "" {
 		crashPart(r)
 		failurePart(r)
 		processPart(r)
+		dispatchDiffPart(r, t)
+	} else if runner.ReplayPath() != "" {
+		dispatchDiffPart(r, t) // runs only when the replay file names one of its pairs
 	}
 	r.Assume("scheduling points are the lock operations of the runtime state, the queue store and the per-surface servers; code between them is thread-local (side condition: -race pass)")
 	r.Assume("process part: the real app.Main in a child process (in-memory listeners of the build overlay), one SIGHUP per edit, outcome read from the reload's own log line")
